@@ -632,6 +632,23 @@ def sink(which):
                 if miss:
                     res.fail(Finding(res.rule, key + "/guard-no-longer-dominates", "%s: the audited discharge (%s) needs a guard matching %s, which no longer dominates the site" % (desc[:120], e["reason"][:120], miss[0]), f, s["span"]))
                     continue
+                # guarded-at-caller: every call site of this function carries the guard (or the guard now sits here)
+                rc = e.get("require_callers")
+                if rc and not all(atoms_match(rx, na) for rx in rc):
+                    callers = []
+                    for f2 in ctx.fx.fns.values():
+                        for c2 in ctx.cg.calls[f2.path]:
+                            if c2.kind == "call" and any(g2.path == f.path for g2 in c2.targets):
+                                callers.append((f2, c2))
+                    badc = None
+                    for (f2, c2) in callers:
+                        at2 = guards(ctx, f2).atoms_at(("t", c2.bb))
+                        if not all(atoms_match(rx, at2 + norm_atoms(at2)) for rx in rc):
+                            badc = (f2, c2)
+                            break
+                    if badc or not callers:
+                        res.fail(Finding(res.rule, key + "/caller-guard-missing", "%s: the audited discharge (%s) relies on every caller establishing %s; %s does not" % (desc[:120], e["reason"][:120], rc[0][:80], ("%s (line %d)" % (badc[0].path.split("::")[-1], badc[1].line)) if badc else "no caller found"), f, s["span"]))
+                        continue
                 if cls.startswith("known-finding"):
                     fd = Finding(res.rule, "R-SINK/%s/%s/%s%s" % (cls.split(":")[1], p, s["kind"], "" if s["kind"].startswith("Panic") else "/" + key_of(desc)[:110]), "%s: %s" % (desc[:120], e["reason"]), f, s["span"])
                     res.fail(fd)
